@@ -24,7 +24,8 @@
 (***************************************************************************)
 EXTENDS Naturals, Sequences, FiniteSets, TLC, Json
 
-CONSTANTS MaxCbs, MaxEnq, MaxInv, Ops, CbShapes, ArgShapes, PredShapes, Counts
+CONSTANTS MaxCbs, MaxEnq, MaxInv, Ops, CbShapes, ArgShapes, PredShapes, Counts,
+          MaxFilters, FilterProtos     \* heterogeneous filters: how many, of which prototypes
 Protos == 1..5
 Binds == <<1, 2, 3, 4, 5, 2, 1, 2>>              \* shapes 1..5: exact; 6: callable with (int) and (int,const TS&); 7: callable with anything;
                                                  \* 8: void(int) that enqueues one more (int) event per call (at most MaxListenerEnq per script)
@@ -32,11 +33,11 @@ MaxListenerEnq == 3
 Accepts == <<1, 2, 2, 3, 4, 5, 2>>               \* (), (int), (long), (TS), (Big), (int,TS), (char)
 Callable == <<{1}, {2}, {3}, {4}, {5}, {2, 5}>>   \* predicates: bool(), bool(int), bool(const TS&), bool(const Big&), bool(int,const TS&), generic {(int), (int,const TS&)}
 
-VARIABLES lst, kind, pending, ncb, nuid, ninv, consumed, nle, hist
-vars == <<lst, kind, pending, ncb, nuid, ninv, consumed, nle, hist>>
-View == <<lst, kind, pending, ncb, nuid, ninv, consumed, nle>>
+VARIABLES lst, kind, pending, ncb, nuid, ninv, consumed, nle, flt, fkd, hist
+vars == <<lst, kind, pending, ncb, nuid, ninv, consumed, nle, flt, fkd, hist>>
+View == <<lst, kind, pending, ncb, nuid, ninv, consumed, nle, flt, fkd>>
 
-Init == lst = [p \in Protos |-> <<>>] /\ kind = <<>> /\ pending = <<>> /\ ncb = 0 /\ nuid = 0 /\ ninv = 0 /\ consumed = {} /\ nle = 0 /\ hist = <<>>
+Init == lst = [p \in Protos |-> <<>>] /\ kind = <<>> /\ pending = <<>> /\ ncb = 0 /\ nuid = 0 /\ ninv = 0 /\ consumed = {} /\ nle = 0 /\ flt = [p \in Protos |-> <<>>] /\ fkd = <<>> /\ hist = <<>>
 H(op, a, b) == hist' = Append(hist, <<op, a, b>>)
 InSeq(s, x) == \E i \in 1..Len(s) : s[i] = x
 Pos(s, x) == CHOOSE i \in 1..Len(s) : s[i] = x
@@ -59,7 +60,7 @@ RECURSIVE TrigAll(_,_,_,_)
 TrigAll(ps, ls, kd, ne) == IF ps = <<>> THEN [ls |-> ls, kd |-> kd, ne |-> ne]
                            ELSE LET t == Trig(Head(ps), ls, kd) IN TrigAll(Tail(ps), t.ls, t.kd, Min(MaxListenerEnq, ne + Enqueuers(Head(ps), ls, kd)))
 AddNode(op, p, newseq, kd) == /\ op \in Ops /\ ncb < MaxCbs /\ lst' = [lst EXCEPT ![p] = newseq] /\ kind' = Append(kind, kd) /\ ncb' = ncb + 1
-                              /\ UNCHANGED <<pending, nuid, ninv, consumed, nle>>
+                              /\ UNCHANGED <<pending, nuid, ninv, consumed, nle, flt, fkd>>
 OpAppend(k) == AddNode("al", Binds[k], Append(lst[Binds[k]], ncb + 1), PlainOf(k)) /\ H("al", k, 0)
 OpPrepend(k) == AddNode("pl", Binds[k], <<ncb + 1>> \o lst[Binds[k]], PlainOf(k)) /\ H("pl", k, 0)
 \* CounterRemover: append / prepend / insert-before forms; script items ac [k, c], pc [k, c], ic [k + 10h, c]
@@ -73,22 +74,28 @@ OpInsertCond(h) == h \in 0..ncb /\ AddNode("ik", 1, Before(lst[1], h, ncb + 1), 
 \* insert before handle h: immediately before it when h is a live callback of the SAME prototype, else at the back of its own prototype's list
 OpInsert(k, h) == /\ h \in 1..ncb /\ AddNode("il", Binds[k], Before(lst[Binds[k]], h, ncb + 1), PlainOf(k)) /\ H("il", k, h)
 OpRemove(h) == /\ "rl" \in Ops /\ h \in 1..ncb /\ lst' = [p \in Protos |-> Without(lst[p], h)]
-               /\ UNCHANGED <<kind, pending, ncb, nuid, ninv, consumed, nle>> /\ H("rl", h, 0)
+               /\ UNCHANGED <<kind, pending, ncb, nuid, ninv, consumed, nle, flt, fkd>> /\ H("rl", h, 0)
+\* MixinHeterFilter (HeterEventDispatcher): a filter of prototype p (bool of the prototype's arguments as lvalues) with behaviour b:
+\* 0 passes, 1 passes and adds 10 to an int argument (prototype 2), 2 rejects odd values; filters of other prototypes never see the dispatch
+OpAppendFilter(p, b) == /\ "af" \in Ops /\ Len(fkd) < MaxFilters /\ flt' = [flt EXCEPT ![p] = Append(@, Len(fkd) + 1)] /\ fkd' = Append(fkd, b)
+                        /\ UNCHANGED <<lst, kind, pending, ncb, nuid, ninv, consumed, nle>> /\ H("af", p, b)
+OpRemoveFilter(f) == /\ "rf" \in Ops /\ f \in 1..Len(fkd) /\ flt' = [p \in Protos |-> Without(flt[p], f)]
+                     /\ UNCHANGED <<lst, kind, pending, ncb, nuid, ninv, consumed, nle, fkd>> /\ H("rf", f, 0)
 ProtosOf(evs) == [i \in 1..Len(evs) |-> evs[i].p]
 \* the triggers ps happen one after the other; what stays queued is `rest`, the events enqueued by listeners go behind it
 Fire(ps, rest) == LET t == TrigAll(ps, lst, kind, nle)  new == t.ne - nle IN
                   /\ lst' = t.ls /\ kind' = t.kd /\ nle' = t.ne /\ nuid' = nuid + new
                   /\ pending' = rest \o [i \in 1..new |-> [uid |-> nuid + i, p |-> 2]]
 OpInvoke(a) == /\ "iv" \in Ops /\ ninv < MaxInv /\ ninv' = ninv + 1 /\ Fire(<<Accepts[a]>>, pending)
-               /\ UNCHANGED <<ncb, consumed>> /\ H("iv", a, 0)
+               /\ UNCHANGED <<ncb, consumed, flt, fkd>> /\ H("iv", a, 0)
 OpEnqueue(a) == /\ "nq" \in Ops /\ nuid < MaxEnq /\ pending' = Append(pending, [uid |-> nuid + 1, p |-> Accepts[a]]) /\ nuid' = nuid + 1
-                /\ UNCHANGED <<lst, kind, ncb, ninv, consumed, nle>> /\ H("nq", a, 0)
+                /\ UNCHANGED <<lst, kind, ncb, ninv, consumed, nle, flt, fkd>> /\ H("nq", a, 0)
 OpProcess == /\ "pa" \in Ops /\ consumed' = consumed \cup {pending[i].uid : i \in 1..Len(pending)} /\ Fire(ProtosOf(pending), <<>>)
-             /\ UNCHANGED <<ncb, ninv>> /\ H("pa", 0, 0)
+             /\ UNCHANGED <<ncb, ninv, flt, fkd>> /\ H("pa", 0, 0)
 OpProcessOne == /\ "po" \in Ops
                 /\ IF pending = <<>> THEN UNCHANGED <<pending, consumed, lst, kind, nuid, nle>>
                    ELSE consumed' = consumed \cup {Head(pending).uid} /\ Fire(<<Head(pending).p>>, Tail(pending))
-                /\ UNCHANGED <<ncb, ninv>> /\ H("po", 0, 0)
+                /\ UNCHANGED <<ncb, ninv, flt, fkd>> /\ H("po", 0, 0)
 \* processIf with a predicate of shape s whose verdict is "uid is odd": the code runs one pass per callable prototype in list order and
 \* returns after the first pass that dispatched something
 RECURSIVE Passes(_,_)
@@ -103,12 +110,14 @@ OpProcessIf(s) == /\ "pi" \in Ops
                   /\ LET rest == Passes(SortedSeq(Callable[s]), pending) IN
                      /\ consumed' = consumed \cup ({pending[i].uid : i \in 1..Len(pending)} \ {rest[i].uid : i \in 1..Len(rest)})
                      /\ Fire(ProtosOf(SelectSeq(pending, LAMBDA e : \A i \in 1..Len(rest) : rest[i].uid # e.uid)), rest)
-                  /\ UNCHANGED <<ncb, ninv>> /\ H("pi", s, 0)
+                  /\ UNCHANGED <<ncb, ninv, flt, fkd>> /\ H("pi", s, 0)
 
 Next == \/ \E k \in CbShapes : OpAppend(k) \/ OpPrepend(k) \/ \E h \in 1..MaxCbs : OpInsert(k, h)
         \/ \E k \in CbShapes, c \in Counts : OpAppendCtr(k, c) \/ OpPrependCtr(k, c) \/ \E h \in 0..MaxCbs : OpInsertCtr(k, h, c)
         \/ OpAppendCond \/ OpPrependCond \/ \E h \in 0..MaxCbs : OpInsertCond(h)
         \/ \E h \in 1..MaxCbs : OpRemove(h)
+        \/ \E p \in FilterProtos, b \in 0..2 : OpAppendFilter(p, b)
+        \/ \E f \in 1..MaxFilters : OpRemoveFilter(f)
         \/ \E a \in ArgShapes : OpInvoke(a) \/ OpEnqueue(a)
         \/ OpProcess \/ OpProcessOne \/ \E s \in PredShapes : OpProcessIf(s)
 Emit == PrintT(ToJson(hist'))
